@@ -10,7 +10,7 @@ from mc.stats import Stats
 
 EXPLORER = "E1"
 RULE = ("E1: every labelled DAG on <=3 nodes (iso classes on 4) x every assignment of edge coefficients from {-1, 1/2, 2} x "
-        "intercept patterns x variance patterns {1,2}: to_joint_gaussian vs exact Fraction algebra (recursive means, "
+        "intercept patterns x variance patterns {1,2} x CPD parent order {as in the graph, reversed}: to_joint_gaussian vs exact Fraction algebra (recursive means, "
         "(I-B)^-T Omega (I-B)^-1); predict for EVERY non-empty proper subset of missing variables and rows from {-1,0,2}^k vs "
         "Sigma_ab Sigma_bb^-1; fit on deterministic full-rank integer data vs least squares; GaussianDistribution "
         "marginalize / reduce / to_canonical_factor / product / divide and CanonicalDistribution reduce / marginalize / "
@@ -69,7 +69,7 @@ def replay(case):
     st = Stats()
     g = case["g"]
     {"lgbn": _lgbn, "gauss": _gauss, "fit": _fit}[g["part"]](st, g)
-    keys = ("site", "coef", "ivar", "missing", "cov", "sub", "mean")
+    keys = ("site", "coef", "ivar", "missing", "cov", "sub", "mean", "evrev")
     return [v for v in st.violations if all(v["case"].get(k) == case.get(k) for k in keys)][:5]
 
 
@@ -113,7 +113,7 @@ def ref_joint(n, edges, coef, icpt, var):
     return [mean[v] for v in range(n)], cov
 
 
-def mk_lgbn(n, edges, coef, icpt, var, edge_order=None):
+def mk_lgbn(n, edges, coef, icpt, var, edge_order=None, ev_rev=False):
     from pgmpy.factors.continuous import LinearGaussianCPD
     from pgmpy.models import LinearGaussianBayesianNetwork
 
@@ -122,6 +122,9 @@ def mk_lgbn(n, edges, coef, icpt, var, edge_order=None):
     m.add_edges_from([(NAMES[a], NAMES[b]) for a, b in (edge_order or edges)])
     for v in range(n):
         pa = [a for a, b in edges if b == v]
+        if ev_rev:
+            # the CPD lists its parents in the opposite order from the graph (coefficients stay attached to their parent)
+            pa = pa[::-1]
         m.add_cpds(LinearGaussianCPD(NAMES[v], [float(icpt[v])] + [float(coef[(u, v)]) for u in pa], float(var[v]), [NAMES[u] for u in pa]))
     return m
 
@@ -139,12 +142,13 @@ def _lgbn(st, g):
     ivars = [((0,) * n, (1,) * n), (tuple(range(n)), tuple(1 + (i % 2) for i in range(n)))] if n > 1 else [((0,), (1,)), ((1,), (2,))]
     for ci in coefs:
         coef = {e: COEF[k] for e, k in zip(edges, ci)}
-        for ip, vp in ivars:
+        multi = any(sum(1 for a, b in edges if b == v) >= 2 for v in range(n))
+        for ip, vp, ev_rev in [(ip, vp, r) for ip, vp in ivars for r in ((False, True) if multi else (False,))]:
             icpt, var = [F(x) for x in ip], [F(x) for x in vp]
-            base = {"g": g, "coef": list(ci), "ivar": [list(ip), list(vp)]}
+            base = {"g": g, "coef": list(ci), "ivar": [list(ip), list(vp)], "evrev": ev_rev}
             mu, cov = ref_joint(n, edges, coef, icpt, var)
             try:
-                model = mk_lgbn(n, edges, coef, icpt, var)
+                model = mk_lgbn(n, edges, coef, icpt, var, ev_rev=ev_rev)
                 order = [NAMES.index(x) for x in nx.topological_sort(model)]
             except Exception as ex:
                 st.violation("LinearGaussianBayesianNetwork", "exception", dict(base, site="LinearGaussianBayesianNetwork"), repr(ex)[:200])
